@@ -224,4 +224,33 @@ mod verif_kani {
         }
         kani::cover!(n == 4 && max == 3 && req[0] == req[1]);
     }
+
+    /// smaller variant: no stored torrents (every count is zero), <= 3 requested hashes out of {0,1,2}, limit <= 3.
+    /// Decides WHICH hashes are reported: exactly those among the first min(n, max_scrape_torrents) requested, each once.
+    #[kani::proof] #[kani::unwind(8)]
+    fn scrape_prefix_only_empty_map() {
+        let mut tm: TorrentMap<Ipv4Addr> = TorrentMap { torrents: IndexMap::default() };
+        let mut config = Config::default();
+        let max: usize = kani::any();
+        kani::assume(max <= 3);
+        config.protocol.max_scrape_torrents = max;
+        let n: usize = kani::any();
+        kani::assume(n <= 3);
+        let mut req = [0u8; 3];
+        let mut v = Vec::with_capacity(3);
+        let mut i = 0;
+        while i < n { let b: u8 = kani::any(); kani::assume(b <= 2); req[i] = b; v.push(hash_of(b)); i += 1; }
+        let resp = tm.handle_scrape_request(&config, ScrapeRequest { info_hashes: v });
+        let take = if n < max { n } else { max };
+        let mut b = 0u8;
+        while b <= 2 {
+            let mut wanted = false; let mut i = 0;
+            while i < take { if req[i] == b { wanted = true; } i += 1; }
+            let got = resp.files.contains_key(&hash_of(b));
+            assert!(!got || wanted, "[C07.http.scrape.only_first_max] only the first max_scrape_torrents requested torrents are reported");
+            assert!(got || !wanted, "[C07.http.scrape.each_requested_once] each of the first max_scrape_torrents requested torrents is reported");
+            b += 1;
+        }
+        kani::cover!(n == 3 && max == 2 && req[0] == req[1]);
+    }
 }
